@@ -405,6 +405,10 @@ func Decide(t fataler, s *graph.Scenario, obsOrders []int, tag string) {
 			}
 		}
 	}
+	// lookups under names that only resemble registered ones create nothing: no callback runs a second time
+	if err := graph.VariantLookups(in); err != nil {
+		t.Fatalf("C05: %v\n%s", err, desc)
+	}
 	kit.Rec.Case(desc, nt, dedup(labels)...)
 }
 
